@@ -262,6 +262,7 @@ Theorem C09_tree_free_runs :
   forall cap ops, run_ops_t (map OpBase ops) (init_st cap) = run_ops ops (init_st cap).
 Proof. intros cap ops. apply run_ops_t_base_eq. vm_compute. reflexivity. Qed.
 
+Definition dir_d0 : str := [100; 47].
 (* The invariant for the alphabet with static trees (15 transaction kinds: the 14 base kinds with
    the tree-aware declaration functions and the delete_detached pre-step, plus register_static_tree):
    inv_b is preserved by every operation from any state within the hold protocol, the core
@@ -291,6 +292,30 @@ Theorem C09_tree_reachable_inv_full :
   forall cap ops, protocol_ok_run_t (init_st cap) ops = true ->
                   all_prefixes_ok_t inv_full_b (init_st cap) ops = true.
 Proof. exact reachable_inv_full_t. Qed.
+
+(* Tree conjunct T1 (invariant): a file whose creator is a static tree lies under that tree and is
+   in a STATIC state (UNCONFIRMED / MISSING / CONFIRMED); preserved by every operation from any
+   state satisfying the core invariant, for requests whose declare_static creator is not itself a
+   tree (static_requester_b: the API passes the requesting step or the root). *)
+Theorem C09_tree_file_static_preserved :
+  forall s o, inv_core_b s = true -> inv_treefile_b s = true -> static_requester_b o = true ->
+              inv_treefile_b (apply_op_t s o) = true.
+Proof. exact inv_treefile_preserved. Qed.
+
+Theorem C09_tree_file_static_every_prefix :
+  forall cap ops, forallb static_requester_b ops = true ->
+                  all_prefixes_ok_t inv_treefile_b (init_st cap) ops = true.
+Proof. exact reachable_inv_treefile. Qed.
+
+(* the domain hypothesis is necessary: a tree as the creator of declare_static declares a file
+   outside the tree *)
+Theorem C09_tree_file_static_domain_refuted :
+  exists cap ops, inv_treefile_b (run_ops_t ops (init_st cap)) = false.
+Proof.
+  exists 3, [OpBase (OpDefineStep root_key [80] [] [] [] [] NPlan);
+             OpRegisterTree (KStep, [80]) dir_d0; OpBase (OpDeclareStatic (KTree, dir_d0) [[120]])].
+  vm_compute. reflexivity.
+Qed.
 
 (* Finding D33 (open): a full recycle revives a detached static tree without the ownership checks of
    register_static_tree.  A registers the tree d/; the rerun of the plan detaches A and the tree;
